@@ -4,6 +4,7 @@ import (
 	"bytes"
 	"encoding/binary"
 	"fmt"
+	"strings"
 	"time"
 
 	"github.com/blinklabs-io/gouroboros/muxer"
@@ -181,10 +182,39 @@ func muxSetup(s *rt.Sim, tier string) func() {
 		// muxer then does with that protocol's segments is its business (drop them, or end the
 		// connection with an "unknown protocol" error); the other streams of a connection that
 		// reports no error must still arrive completely.
+		cleanUnreg := false
 		if len(regs) > 1 && rt.Choose("cfg.x", 3) == 2 {
 			victim := regs[rt.Choose("cfg.x", len(regs))]
 			delay := oneOf("cfg.x", time.Millisecond, 20*time.Millisecond, 300*time.Millisecond, 2*time.Second, 45*time.Second)
+			quiesced := rt.Choose("cfg.x", 2) == 1
 			go func() {
+				if quiesced {
+					// variant: the victim's stream is complete (everything submitted has been
+					// delivered) before its receiver unregisters. No segment for an unregistered
+					// protocol can exist then, so an "unknown protocol" error afterwards would
+					// mean the unregistration took something else with it (another role of the
+					// same protocol number, for instance)
+					for i := 0; i < 6000; i++ {
+						done := victim.sendDone == victim.nsub
+						for sub := 0; sub < victim.nsub; sub++ {
+							if victim.recvd[sub] != victim.sent[sub] {
+								done = false
+							}
+						}
+						if done {
+							break
+						}
+						if i == 5999 {
+							return
+						}
+						sleep(100 * time.Millisecond)
+					}
+					rt.Fault("F15.unregister-after-stream-complete")
+					victim.unreg = true
+					cleanUnreg = true
+					victim.recvMux.UnregisterProtocol(victim.proto, victim.recvRole)
+					return
+				}
 				sleep(delay)
 				rt.Fault("F15.unregister-while-receiving")
 				victim.unreg = true
@@ -308,6 +338,13 @@ func muxSetup(s *rt.Sim, tier string) func() {
 			rt.Hit("mux.clean-run")
 		}
 		kaStop = true
+		if cleanUnreg {
+			for _, e := range append(append([]error{}, errsA...), errsB...) {
+				if strings.Contains(e.Error(), "unknown protocol") {
+					rt.Violate("C09/unregister-removed-another-receiver", "a receiver unregistered after its stream had been delivered completely; afterwards the muxer reported %q although every segment on the wire belongs to a registered receiver", e.Error())
+				}
+			}
+		}
 		for _, r := range regs {
 			for sub := 0; sub < r.nsub; sub++ {
 				if r.recvd[sub] > r.started[sub] {
